@@ -60,7 +60,7 @@ theorem refSendReset_spec (s : Streams) (id : Nat) (r : Reason) (st : Stream)
       · rw [c.state, sp.state]; rfl
       · rw [c.pendingSend, sp.pendingSend]
     · exfalso
-      have : (G st).pendingSend = [] := by rw [← c.pendingSend]; exact d
+      have : (G st).pendingSend = [] := by rw [← c.pendingSend]; exact d.1
       rw [sp.pendingSend] at this
       simp at this
   · intro k st'' hk hlt' h'
@@ -71,6 +71,6 @@ theorem refSendReset_spec (s : Streams) (id : Nat) (r : Reason) (st : Stream)
     have h3 : (Store.mod s.store id G).get? k = some st0 := by rw [hget, if_neg hk]; exact h0
     rcases ev.fwd k st0 h3 (by rw [hnk]; exact hkb k st0 h0) with ⟨st', h', c⟩ | ⟨st'', c, d⟩
     · exact ⟨st', h', c⟩
-    · exfalso; apply hq; rw [← c.pendingSend]; exact d
+    · exfalso; apply hq; rw [← c.pendingSend]; exact d.1
 
 end H2V.Lemmas.ConnResetP
